@@ -15,12 +15,27 @@ def load_known():
     """Read-only at run time.  Returns {(property, dev): what} for `known:` lines only.
     `fixed:` lines suppress nothing."""
     known = {}
+    files = [KNOWN_FILE]
+    if os.environ.get("VERIF_KNOWN_EXTRA"):      # development aid only (see CONVENTIONS.md)
+        files.append(os.environ["VERIF_KNOWN_EXTRA"])
+    for fn in files:
+        if os.path.exists(fn):
+            for line in open(fn):
+                m = _RE_KNOWN.match(line.strip())
+                if m:
+                    known[(m.group(1), m.group(2))] = m.group(3)
+    return known
+
+
+def load_fixed():
+    """{(property, dev): (commit, what)} for `fixed:` lines (informational; suppress nothing)."""
+    fixed = {}
     if os.path.exists(KNOWN_FILE):
         for line in open(KNOWN_FILE):
-            m = _RE_KNOWN.match(line.strip())
+            m = _RE_FIXED.match(line.strip())
             if m:
-                known[(m.group(1), m.group(2))] = m.group(3)
-    return known
+                fixed[(m.group(1), m.group(3))] = (m.group(2), m.group(4))
+    return fixed
 
 
 class Ctx:
